@@ -13,7 +13,21 @@ import (
 	"golang.org/x/tools/go/ssa/ssautil"
 )
 
-const repoDir = "/repo"
+// repoDir: the tree under check. /repo unless VERIF_REPO names a scratch copy (used only to run the checks against
+// seeded changes without touching /repo; evidence and replay files then go to $VERIF_REPO/.verif_out)
+var repoDir = func() string {
+	if d := os.Getenv("VERIF_REPO"); d != "" {
+		return d
+	}
+	return "/repo"
+}()
+
+func scratchOut() string {
+	if os.Getenv("VERIF_REPO") != "" {
+		return filepath.Join(os.Getenv("VERIF_REPO"), ".verif_out")
+	}
+	return ""
+}
 
 func verifDir() string {
 	if d := os.Getenv("VERIF_DIR"); d != "" {
